@@ -105,6 +105,8 @@ impl Profile {
             }
             "C02" => {
                 p.name = "C02";
+                p.w_arm_fail = 5;
+                p.w_cancel = 5;
                 p.w_submit = 14;
                 p.w_open = 4;
                 p.p_odd_resources = 60;
